@@ -161,18 +161,21 @@ theorem c18_unclamped_overruns :
   refine ⟨(532480, 4096), by decide, ?_⟩
   unfold Contained start; simp
 
-/-- slot geometry check: the spare slot with the largest accepted size ends below `flashEnd` and
-    does not overlap the running image (the other slot, of the same maximal size) -/
-def geomOk (P : UpdParams) (flashEnd map ubin : Nat) : Bool :=
+/-- slot geometry check against the SDK flash layout: the spare slot with the largest accepted
+    size ends at or below the end of its firmware area (`endLo` for the lower slot, `endHi` for the
+    upper one: the sectors behind hold user data / system parameters) and does not overlap the
+    running image (the other slot, of the same maximal size) -/
+def geomOk (P : UpdParams) (endLo endHi map ubin : Nat) : Bool :=
   match slotOf P map ubin, slotOf P map (1 - ubin), limitOf P map with
   | some slot, some other, some lim =>
-    decide (slot + lim ≤ flashEnd ∧ (slot + lim ≤ other ∨ other + lim ≤ slot))
+    decide (slot + lim ≤ (if slot < other then endLo else endHi) ∧ (slot + lim ≤ other ∨ other + lim ≤ slot))
   | _, _, _ => false
 
-/-- for every supported flash map of /repo and both running images -/
+/-- for every supported flash map of /repo and both running images; SDK layout: 512+512 maps keep
+    user data from 0x7C000 / system parameters from 0xFC000, 1024+1024 maps from 0xFC000 / 0x1FC000 -/
 theorem c18_slot_geometry :
-    (∀ map ∈ Gen.updParams.maps512, ∀ ubin ∈ [0, 1], geomOk Gen.updParams 1048576 map ubin = true) ∧
-    (∀ map ∈ Gen.updParams.maps1024, ∀ ubin ∈ [0, 1], geomOk Gen.updParams 2097152 map ubin = true) := by
+    (∀ map ∈ Gen.updParams.maps512, ∀ ubin ∈ [0, 1], geomOk Gen.updParams 0x7C000 0xFC000 map ubin = true) ∧
+    (∀ map ∈ Gen.updParams.maps1024, ∀ ubin ∈ [0, 1], geomOk Gen.updParams 0xFC000 0x1FC000 map ubin = true) := by
   decide
 
 /-- an unsupported map never starts a download -/
